@@ -341,6 +341,11 @@ pub enum Kind {
         system_idx: usize,
         boot: u32,
         key_id: u64,
+        /// the version components each app was configured with (independent of the library's Display)
+        versions: Vec<Vec<u32>>,
+        updater_name: String,
+        updater_version: Vec<u32>,
+        os: Vec<String>,
     },
     /// stream returned by start()/oneshot_check() is available
     Started,
